@@ -345,6 +345,9 @@ ESC_SHEETS = [
     ('a { color: red; $ \\7b ; width: 1px } b { top: 0 }', 'a { color: red; width: 1px } b { top: 0 }'),
     ('a { top: 0 } \\7b {} c { left: 0 } d { top: 0 }', 'a { top: 0 } c { left: 0 } d { top: 0 }'),
     ('a { color: red; \\28 y; width: 1px } b { top: 0 }', 'a { color: red; width: 1px } b { top: 0 }'),
+    # garbage with a balanced block inside a margin box
+    ('@page { @top-left { color: red; foo {a:b}; width: 1px } margin: 1cm } a { top: 0 }',
+     '@page { @top-left { color: red; width: 1px } margin: 1cm } a { top: 0 }', 'margin-box:block-in-garbage-closes-the-box'),
 ]
 
 
@@ -354,7 +357,8 @@ def escbrace_cases(tier):
 
 
 def check_escbrace(case, ctx):
-    damaged, original = ESC_SHEETS[case['i']]
+    damaged, original = ESC_SHEETS[case['i']][:2]
+    sig = (ESC_SHEETS[case['i']] + ('escaped-bracket:treated-as-structure',))[2]
     saved = cssutils.log.raiseExceptions
     cssutils.log.raiseExceptions = False
     try:
@@ -364,7 +368,7 @@ def check_escbrace(case, ctx):
         cssutils.log.raiseExceptions = saved
     ctx.case(damaged, True, {'damaged': damaged})
     if [x for x in pd if x[0] != 'unknown'] != list(po):
-        raise Violation('escaped-bracket:treated-as-structure', f'{damaged!r} parses to {pd}, the undamaged sheet to {po}')
+        raise Violation(sig, f'{damaged!r} parses to {pd}, the undamaged sheet to {po}')
 
 
 SUBS.append(Sub('escbrace', check_escbrace, enumerate=escbrace_cases, shards_quick=1, shards_thorough=1))
